@@ -393,6 +393,30 @@ PROPS = {
                        "and after the last timer nothing is left in the wheel (Runtime::current_timeout() is None)."),
         "level_note": "Hours of simulated time cost microseconds. Trusts the interposed clock (std::time::Instant follows it) and the slack constant.",
     },
+    "C16": {
+        "title": "QUIC streams and datagrams: ordered, exactly-once, never stranded",
+        "engine": "K",
+        "package": "check-k",
+        "bin": "check-k",
+        "design_ref": "§4, §7 C16, §13.8",
+        "technique": "deterministic simulation with fault injection: a client and a server endpoint of the real compio-quic (quinn-proto, rustls) with real UDP sockets on loopback in one runtime on the simulated io_uring kernel or the polling driver; the simulator decides order and timing of the UDP completions and, as the network between the sockets, loses and duplicates datagrams; loss detection, idle time-outs and draining run on the simulated clock; the endpoints' random bytes (connection ids, TLS key shares, packet-number skips) come from a stream derived from the run's seed (vendored getrandom); generated uni/bidirectional streams with payloads 0..80 KB written and read in generated chunks with reader pacing, generated connection/stream windows (down to 1.5 KB) and stream-count limits (down to 1), unreliable datagrams both ways, and a generated close point (end, client closes, server closes the connection or its endpoint while operations are pending); stream-content, end-of-stream, datagram (one sent, at most once) and stranded (every pending operation resolves within 40 s of simulated time after a close) oracles; choice-sequence minimisation and replay",
+        "tiers": {
+            "quick": {"runs": 100_000, "time_limit_s": 60},
+            "thorough": {"runs": 30_000_000, "time_limit_s": 1500},
+        },
+        "rule": K_RULE,
+        "real": K_REAL + ["compio-quic, quinn-proto, rustls + ring (with seeded entropy)"],
+        "stub": K_STUB + ["the network between the two UDP sockets: loss and duplication of datagrams sent through sendmsg (reordering only through completion order; no delay beyond what the simulator's completion timing gives)", "the operating system's entropy source during a run"],
+        "assumptions": K_ASSUME + [
+            "both endpoints are compio-quic in one runtime; interoperability with other QUIC stacks is not examined",
+            "std HashMap iteration orders inside quinn-proto are not controlled; the determinism tool shows no divergence",
+            "unreliable datagrams may be lost; a received one must be one that was sent and must not repeat",
+            "0-RTT, connection migration, key update and h3 are not exercised",
+        ],
+        "level_text": ("Seeded exploration of stream/datagram programs over a lossy, duplicating, reordering simulated network and small flow-control windows: per stream the server reads exactly the client's bytes and then end of stream, the echo equals what was written, streams and datagrams do not interfere, "
+                       "a slow reader only delays; closing a connection or an endpoint with operations pending makes every one of them resolve within a bound of simulated time."),
+        "level_note": "Hours of simulated protocol time cost milliseconds.",
+    },
     "C20": {
         "title": "Child processes: complete stdio and the real exit status",
         "engine": "K",
